@@ -1253,6 +1253,27 @@ func stressLeaks(seed int64, scale int) int {
 			failsafe.NewExecutor[int](rp, rl, bh).WithContext(ctx).GetWithExecution(fn)
 		}
 	}
+	// a hedge around a retry policy with a very long delay: the first attempt fails only after the hedge has started and enters its
+	// retry delay; the hedge wins. The losing branch is cancelled and must leave its delay at once, not sit it out.
+	for i := 0; i < 3*scale; i++ {
+		hedgeStarted := make(chan struct{})
+		var k atomic.Int32
+		hp := hedgepolicy.BuilderWithDelay[int](200 * time.Microsecond).Build()
+		rp := retrypolicy.Builder[int]().WithMaxRetries(2).WithDelay(time.Hour).Build()
+		failsafe.NewExecutor[int](hp, rp).GetWithExecution(func(e failsafe.Execution[int]) (int, error) {
+			if k.Add(1) == 1 {
+				select {
+				case <-hedgeStarted:
+				case <-time.After(time.Second):
+				}
+				return 0, errX // fails once the hedge is running: its branch enters the one-hour retry delay
+			}
+			close(hedgeStarted)
+			time.Sleep(2 * time.Millisecond) // the first branch reaches its delay meanwhile
+			return 1, nil
+		})
+		runs++
+	}
 	// grace period: poll up to 3 s (a loaded machine may need a while to run the last callbacks)
 	after := 0
 	for t0 := time.Now(); ; {
